@@ -1,0 +1,37 @@
+//go:build verif
+
+package transport
+
+// Machine-checked contracts for /verif (govc). Comment-only, compiled only
+// with -tags verif; changes no behaviour.
+//
+// C38: allocator invariant  next >= 1 && next%2 == (isDialer ? 1 : 0).
+// Every Next() returns the pre-state counter and advances it by exactly 2 in
+// one atomic step, so results of distinct calls are distinct (strictly
+// increasing), nonzero, and of the role's parity, as long as fewer than 2^62
+// identifiers have been allocated (stated precondition).
+
+//@ ghost func connIsDialer(c PeerConn) bool
+
+//@ func PeerConn.IsDialer
+//@ trusted interface method of an external transport: a connection's role is fixed
+//@ ensures result == connIsDialer(recv)
+
+//@ func NewStreamIDAllocator
+//@ prop C38
+//@ ensures result != nil
+//@ ensures result.isDialer == isDialer
+//@ ensures result.next == ite(isDialer, 1, 2)
+//@ ensures result.next >= 1 && result.next % 2 == ite(result.isDialer, 1, 0)
+
+//@ func (*StreamIDAllocator).Next
+//@ prop C38
+//@ requires a != nil
+//@ requires a.next >= 1 && a.next % 2 == ite(a.isDialer, 1, 0)
+//@ requires a.next < 9223372036854775808
+//@ modifies a.next
+//@ ensures result == old(a.next)
+//@ ensures a.next == old(a.next) + 2
+//@ ensures result != 0
+//@ ensures result % 2 == ite(a.isDialer, 1, 0)
+//@ ensures a.next >= 1 && a.next % 2 == ite(a.isDialer, 1, 0)
